@@ -155,20 +155,31 @@ def legal_doc(kind, k, j):
             "query Q @lim { a }", "query Q($v: Int) { arg(i: $v) a @lim }", "{ ... on Query { arg @lim } }", "{ req(x: 1) arg }",
         ]
         return docs[k], ({"v": 1} if "$v" in docs[k] else {}), None
+    if kind == "names":
+        # operation names and fragment names live in different namespaces: a fragment may be called like an operation (also like the one that spreads it)
+        docs = [
+            ("query User($i: ID!) { node { ...User } arg(id: $i) a @tag(n: 1) } fragment User on Node { id }", {"i": "1"}, "User"),
+            ("query Hero($v: Int) { arg(i: $v) } query Side { ...Hero } fragment Hero on Query { a }", {"v": 1}, "Side"),
+            ("query Hero($v: Int) { arg(i: $v) } query Side { ...Hero } fragment Hero on Query { a }", {"v": 1}, "Hero"),
+            ("query A { ...B } query B($v: Int) { ...A arg(i: $v) } fragment A on Query { b } fragment B on Query { a }", {"v": 2}, "B"),
+            ("{ ...Query } fragment Query on Query { a q { ...Query2 } } fragment Query2 on Query { b }", {}, None),
+            ("mutation set { set(v: 1) ...set } fragment set on Mutation { other }", {}, None),
+        ]
+        return docs[k]
     if kind == "multi":
         doc = "query A { a } query B($v: Int) { arg(i: $v) } mutation C { set(v: 1) } subscription D { t1 } fragment F on Query { a }\nquery E { ...F }"
         return doc, {}, ["A", "B", "C", "E"][k]
     raise AssertionError(kind)
 
 
-SIZES = {"spread": (len(SPREADS), 4), "literal": (len(LITERALS), 4), "varuse": (len(VARUSES), 4), "meta": (8, 1), "repeat": (8, 1), "dirs": (10, 1), "multi": (4, 1), "defaults": (10, 1)}
+SIZES = {"spread": (len(SPREADS), 4), "literal": (len(LITERALS), 4), "varuse": (len(VARUSES), 4), "meta": (8, 1), "repeat": (8, 1), "dirs": (10, 1), "multi": (4, 1), "defaults": (10, 1), "names": (6, 1)}
 
 
 @obligation(tier="quick", timeout=240, shards=[{"kind": k} for k in SIZES],
             samples=[{"k": 0, "j": 0}, {"k": 3, "j": 1}],
             selectors=["k: construction within the family", "j: site (operation / nested / named fragment / inline fragment)", "shard: family"],
-            bounds="8 families x sites (see LITERALS, SPREADS, VARUSES tables)",
-            note="legal spreads, literals of every accepted kind, allowed variable usages (incl. inside fragments only), meta-fields, repeated fields, directives at every location, several operations, bare fields / directives whose non-null arguments have schema defaults")
+            bounds="9 families x sites (see LITERALS, SPREADS, VARUSES tables)",
+            note="legal spreads, literals of every accepted kind, allowed variable usages (incl. inside fragments only), meta-fields, repeated fields, directives at every location, several operations, bare fields / directives whose non-null arguments have schema defaults, fragments named like operations")
 def c06_legal(k: int, j: int) -> bool:
     """
     post: _
